@@ -17,11 +17,14 @@ from .common import sx
 
 
 def make_reduce(log, mode="sum", bad=None):
-    def user(x, axis, *, scale=1, offset=0):
-        log.append({"n_pos": 1, "shape": tuple(np.shape(x)), "axis": axis, "scale": scale, "offset": offset, "type": type(x).__name__})
+    def user(x, axis, *, scale=1, offset=0, tag="default"):
+        log.append({"n_pos": 1, "shape": tuple(np.shape(x)), "axis": axis, "scale": scale, "offset": offset, "type": type(x).__name__, "tag": tag})
         r = np.asarray((np.sum(x, axis=axis) if mode == "sum" else np.max(x, axis=axis)) * scale + offset)
         if bad == "type":
             return r.tolist()
+        if bad == "type_duck":
+            # not an ndarray although shape and conversion look right (numpy reductions over all axes return numpy scalars)
+            return r[()] if r.ndim == 0 else memoryview(np.ascontiguousarray(r))
         if bad == "shape":
             return np.expand_dims(r, 0)
         if bad == "arity":
@@ -31,14 +34,16 @@ def make_reduce(log, mode="sum", bad=None):
 
 
 def make_elementwise(log, bad=None):
-    def user(*xs, weight=1):
-        log.append({"n_pos": len(xs), "shapes": [tuple(np.shape(x)) for x in xs], "weight": weight})
+    def user(*xs, weight=1, tag="default"):
+        log.append({"n_pos": len(xs), "shapes": [tuple(np.shape(x)) for x in xs], "weight": weight, "tag": tag})
         r = xs[0] * weight
         for y in xs[1:]:
             r = r + y
         r = np.asarray(r)
         if bad == "type":
             return r.tolist()
+        if bad == "type_duck":
+            return r[()] if r.ndim == 0 else memoryview(np.ascontiguousarray(r))
         if bad == "shape":
             return np.expand_dims(r, 0)
         return r
@@ -140,7 +145,16 @@ def _work(item):
             if common.classify_exc(e) != "SemanticError":
                 out.append(({"kind": "keyword_axis_clash_wrong_error", "exc": common.classify_exc(e)}, {"desc": desc2, "message": str(e)[:200]}))
     # 3. wrong outputs make the call fail
-    for bad in (("type", "shape", "arity") if c.family == "reduce" else ("type", "shape")):
+    # 2b. a keyword-only option whose value is None is a value like any other
+    log.clear()
+    try:
+        common.with_alarm(30, fn, c.desc, *[np.array(a) for a in c.arrays], **kw, tag=None)
+        if len(log) == 1 and log[0]["tag"] is not None:
+            out.append(({"kind": "keyword_only_not_forwarded_verbatim", "value": "None"}, {"call": c.record(), "received": str(log[0]), "given": {"tag": None}}))
+    except BaseException as e:  # noqa: BLE001
+        out.append(({"kind": "adapter_call_fails", "step": "none_valued_option", "family": c.family, "exc": common.classify_exc(e)},
+                    {"call": c.record(), "message": str(e)[:300]}))
+    for bad in (("type", "type_duck", "shape", "arity") if c.family == "reduce" else ("type", "type_duck", "shape")):
         l2 = []
         fnb = (einx.numpy.adapt_numpylike_reduce(make_reduce(l2, "sum", bad=bad)) if c.family == "reduce"
                else einx.numpy.adapt_numpylike_elementwise(make_elementwise(l2, bad=bad)))
